@@ -92,8 +92,8 @@ def make_cases(tier, seed):
     for fam, fen in clocks:
         cases.append({"kind": "probe:" + fam, "fen": fen, "moves": [], "deep": False})
     # random legal walks chosen by the engine's own generator
-    nwalks = 120 if tier == "quick" else 3000
-    maxlen = 36 if tier == "quick" else 60
+    nwalks = 120 if tier == "quick" else 1500
+    maxlen = 36 if tier == "quick" else 50
     starts = []
     pool = corpus + bench
     for i in range(nwalks):
@@ -150,7 +150,8 @@ def run_model(cases, timeout=3000):
         c = cases[i]
         items.append("walk_case %s [%s] %s" % (coq_str(c["fen"]), "; ".join(coq_str(m) for m in c["moves"]),
                                                 "true" if c["deep"] else "false"))
-    vals, lg = C.coq_eval_items("bcorr", HEADER, items, lambda l: l, nshards=C.NPROC * 2, timeout=timeout)
+    # many small shards: memory per coqc stays below 1 GB and the load balances
+    vals, lg = C.coq_eval_items("bcorr", HEADER, items, lambda l: l, nshards=max(C.NPROC * 2, len(items) // 40), timeout=timeout)
     if vals is None:
         return None, lg
     out = [None] * len(cases)
@@ -166,7 +167,7 @@ def run_spec(cases, timeout=3000):
     order = sorted(range(len(cases)), key=lambda i: -cost(cases[i]))
     items = ["spec_case %s [%s]" % (coq_str(cases[i]["fen"]), "; ".join(coq_str(m) for m in cases[i]["moves"]))
              for i in order]
-    vals, lg = C.coq_eval_items("bspec", SPEC_HEADER, items, lambda l: l, nshards=C.NPROC * 2, timeout=timeout)
+    vals, lg = C.coq_eval_items("bspec", SPEC_HEADER, items, lambda l: l, nshards=max(C.NPROC * 2, len(items) // 40), timeout=timeout)
     if vals is None:
         return None, lg
     out = [None] * len(cases)
